@@ -5,6 +5,7 @@ import NumbersModel.Drv.Addressing
 import NumbersModel.Drv.Csv
 import NumbersModel.Drv.CellRecord
 import NumbersModel.Drv.Storage
+import NumbersModel.Drv.StringTable
 
 open NumbersModel.Drv
 
@@ -19,6 +20,7 @@ def dispatch (line : String) : String :=
     | "cell" :: rest => handleCell rest
     | "d128" :: rest => handleD128 rest
     | "row" :: rest => handleRow rest
+    | "strtab" :: rest => handleStrTab rest
     | _ => none
   match r with
   | some s => s
